@@ -393,10 +393,10 @@ impl Check for C12 {
         ]
     }
     fn cases(&self, tier: Tier) -> u64 {
-        tier.pick(800, 30_000)
+        tier.pick(3_200, 30_000)
     }
     fn min_nontrivial(&self, tier: Tier) -> u64 {
-        tier.pick(50_000, 1_000_000)
+        tier.pick(200_000, 1_000_000)
     }
     fn crash_is_violation(&self) -> bool {
         true
